@@ -71,6 +71,16 @@ def documents(tier):
         if c["valid"] and c["pos"] == "member" and c["ops"] is None and c.get("src") == "hand" and (tier != "quick" or c["kind"] not in seen_kind):
             seen_kind.add(c["kind"])
             docs.append({"id": "default:" + c["id"], "doc": c["doc"], "settings": c["settings"]})
+    # settings that hold SEVERAL entries per table (crates spelled with - and _, two replacements, two patches, two conversions): which entry
+    # applies must not depend on an iteration order
+    from . import C13, C14
+    for site in ("member", "inline"):
+        xdoc = C13.build_doc(site, "^1.2.3", "0", None, None)
+        for (sa, sb) in (({"version": "*", "rename": "alpha"}, {"version": "*", "rename": "beta"}), ({"version": "1.2.4"}, {"version": "!"}),
+                         ({"version": "!"}, {"version": "*", "rename": "gamma"})):
+            for policy in ("generate", "allow"):
+                st = {"unknown_crates": policy, "crates": {"ext-crate": sa, "ext_crate": sb, "other-crate": {"version": "*"}, "other_crate": {"version": "!"}}}
+                docs.append({"id": "crates2:%s:%s:%s" % (site, json.dumps([sa, sb]), policy), "doc": xdoc, "settings": st})
     seen, res = set(), []
     for d in docs:
         k = key_of([d["doc"], d["settings"]])
